@@ -96,6 +96,16 @@ CHECKS = {
                   'tasks: identical requests share a task, different requests never do (two known cache-key findings excluded by signature), each task '
                   'runs its own function / command line with its own dependencies, closure returns every transitive dependency once.',
              design='DESIGN.md section 4 C15'),
+ 'C12': dict(technique='bounded symbolic execution (symrun + z3: solver-chosen result kinds, failing-bin patterns as symbolic booleans, verbosities, slices) of the real table representers, TableTemplate and RstTable formatter',
+             text='For every result kind with a built-in representation, every failing-bin pattern of the listed shapes, all 6 verbosities and both table '
+                  'representers: a highlight/KO mark appears iff the result is false; detailed tables highlight exactly the failing bins and show their '
+                  'values (template level and text level); highlight masks and columns have equal lengths; slicing/joining keeps them aligned.',
+             design='DESIGN.md section 4 C12'),
+ 'C13': dict(technique='bounded symbolic execution (symrun + z3: solver-chosen result kinds, failing patterns, verbosities and SEQUENCES of read-only operations) with deep structural snapshots',
+             text='For every result kind, failing pattern and every sequence of 2 (3) operations out of bool, oracles, counts, table/plot/full '
+                  'representation at any verbosity, rst formatting, fingerprint, deepcopy, pickle: verdict, recorded statistics (dictionary key sets '
+                  'included) and input datasets are identical before and after; evaluating twice gives identical results.',
+             design='DESIGN.md section 4 C13'),
 }
 
 NOT_YET = {}
